@@ -1,5 +1,8 @@
 // C09 implementation driver: the real zix bump allocator on request histories.
-// case:  <A> <C> <mem:0|1> <op> ...      (see ocaml/drv_c09.ml for the op syntax)
+// case:  <A> <C> <mem:0|1>[n] <op> ...      (see ocaml/drv_c09.ml for the op syntax)
+// A flag n after the mem digit ("1n") marks a history reserved for the library's normal build (-DNDEBUG, no
+// assertions): it contains aligned_alloc requests whose size is not a multiple of the alignment.  The calls
+// are the same; this driver only refuses such a case when it was itself built WITH assertions.
 // The buffer address A is chosen by the case: one region is mapped at a fixed address so that every
 // address residue (mod 8 and mod any power of two up to the region size) can be produced exactly.
 // mem=1: the window [A-16, A+C+16) is dirtied with non-zero bytes, every block obtained is filled
@@ -152,7 +155,17 @@ int main(void)
     }
     const uintptr_t A    = strtoull(tok[0], NULL, 10);
     const size_t    C    = strtoull(tok[1], NULL, 10);
-    const int       memf = !strcmp(tok[2], "1");
+    const int       memf = tok[2][0] == '1';
+    if ((tok[2][0] != '0' && tok[2][0] != '1') || (tok[2][1] && strcmp(tok[2] + 1, "n"))) {
+      puts("bad-case");
+      continue;
+    }
+#ifndef NDEBUG
+    if (tok[2][1] == 'n') {
+      puts("needs-the-NDEBUG-build");
+      continue;
+    }
+#endif
     const uintptr_t rlo = BASE, rhi = BASE + REGION;
     if (A < rlo + 4096 || A >= rhi - 4096 || (memf && (C > rhi - 4096 - A)) || C > (size_t)PTRDIFF_MAX) {
       puts("bad-case");
